@@ -28,6 +28,7 @@ def handle (line : String) : String :=
       else if fam == "window" then Fam.Window.run fields
       else if fam == "lexiter" then Fam.Lex.runIter fields
       else if fam == "lexops" then Fam.Lex.runOps fields
+      else if fam == "lexdisp" then Fam.Lex.runDisp fields
       else if fam == "render" then Fam.RenderF.run false fields
       else if fam == "rendercolor" then Fam.RenderF.run true fields
       else if ["peg", "rep", "capture", "errors", "bracket", "list", "recover", "twice", "scoped", "ctxops",
